@@ -1169,6 +1169,28 @@ fn judge(sc: &Scenario, o: &Outcome, probes: &mut Counters) -> (Option<Violation
         }
     }
 
+    // ---- a request kept back by a hold must travel on once the link is released ----
+    let last_act_t3 = recs.iter().filter(|r| matches!(r.ev, Ev::Act(_))).map(|r| r.t3).max().unwrap_or(0);
+    for x in 0..n {
+        let c = &sc.conns[x];
+        if ci[x].res != Res::Pending || !ci[x].started || c.host == 0 || c.target == Target::Unowned || ci[x].arr.is_some() || ci[x].arr_unknown || ci[x].lost_t3.is_some() {
+            continue;
+        }
+        let held_at_call = dir_state(recs, c.host, ci[x].start_t3) == DirState::Held;
+        let released_later = recs.iter().any(|r| r.t3 > ci[x].start_t3 && matches!(&r.ev, Ev::Act(LinkAct::Release(a, b)) if (*a == c.host && *b == 0) || (*a == 0 && *b == c.host)));
+        let partition_later = recs.iter().any(|r| r.t3 > ci[x].start_t3 && matches!(&r.ev, Ev::Act(a) if a.is_partition()));
+        if held_at_call && released_later && !partition_later && dir_state(recs, c.host, u64::MAX) == DirState::Healthy && end_step > step_of(last_act_t3) + lat + 3 {
+            probes.inc("held_request_released_judged");
+            return (
+                Some(Violation::new(
+                    "Hang",
+                    format!("connector {x}: its request was kept back by a hold (call at step {}), the link was released before step {}, yet the request never reached h0 and the connect is still pending at step {end_step}", step_of(ci[x].start_t3), step_of(last_act_t3)),
+                )),
+                false,
+            );
+        }
+    }
+
     // ---- a live request waits while the listener sits in accept ----
     if max_parked >= 2 {
         probes.inc("accepts_parked_concurrently");
